@@ -53,7 +53,7 @@ const slack = time.Millisecond
 func TestC15Keepalive(t *testing.T) {
 	e := vrun.LoadEnv()
 	meta := vrun.Meta{Property: "C15", Workload: "TestC15Keepalive", Total: e.Pick(200, 50000),
-		Rule: "virtual time (testing/synctest): (interval, timeout) drawn from {50ms,200ms,1s,1.5s,10s,30s}^2; the broker answers the first k in {0,1,2,5,20,all} pings in time (pong delay 0, timeout/2 or timeout-1ms) and then falls silent or answers late (timeout+1ms, 3*timeout); with or without concurrent upstream traffic (the silent broker withholds its acks as well); 0/3/10 broker-originated pings interleaved, in a third of the cases also a burst of 12-31 broker pings at once while the client's pong writes take 5 ms each. Oracle on the virtual clock: ping cadence (next ping no later than one interval + 1ms after the previous one was sent), disconnect notification no later than interval + timeout + 1 ms after the broker's last timely message, AND no later than timeout + 1 ms after the first ping that is not answered in time reached the broker, and a new dial; no disconnect and no redial over 40 intervals while every pong is in time; every broker ping answered by a pong with the same request id; announced interval/timeout = configured values truncated to whole seconds. non-trivial = at least 2 client pings observed; distinct = scenario tuple",
+		Rule: "virtual time (testing/synctest): (interval, timeout) drawn from {50ms,200ms,1s,1.5s,10s,30s}^2; the broker answers the first k in {0,1,2,5,20,all} pings in time (pong delay 0, timeout/2 or timeout-1ms) and then falls silent or answers late (timeout+1ms, 3*timeout); with or without concurrent upstream traffic (the silent broker withholds its acks as well); 0/3/10 broker-originated pings interleaved, in a third of the cases also a burst of 12-31 broker pings at once while the client's pong writes take 5 ms each. Oracle on the virtual clock: disconnect notification no later than interval + timeout + 1 ms after the broker's last timely message, AND no later than timeout + 1 ms after the first ping that is not answered in time reached the broker, and a new dial; no disconnect and no redial over 40 intervals while every pong is in time; every broker ping answered by a pong with the same request id; announced interval/timeout = configured values truncated to whole seconds. non-trivial = at least 2 client pings observed; distinct = scenario tuple",
 		Assumptions: []string{"scheduling slack is 1 ms of virtual time (inside a bubble time only advances when every goroutine is blocked)",
 			"'silence' starts with the first ping that does not get its pong within the timeout; the bound is measured from that ping's arrival at the broker"}}
 	vrun.Loop(t, meta, 0, func(c *vrun.Case) vrun.Result {
@@ -296,6 +296,7 @@ func run(s scenario) vrun.Result {
 			map[string]any{"announced_interval": cr.PingInterval.String(), "announced_timeout": cr.PingTimeout.String(), "configured_interval": iv.String(), "configured_timeout": to.String()}))
 	}
 	// cadence on link 1 up to the first bad ping
+	cadenceGaps := 0
 	var l1 []pingRec
 	for _, p := range ps {
 		if p.link == 1 {
@@ -312,12 +313,12 @@ func run(s scenario) vrun.Result {
 			due = okDelay
 		}
 		if gap := l1[i].at.Sub(l1[i-1].at); gap > due+slack {
-			return finish(vrun.Violation("the client let more than one ping interval pass between two pings", "ping-cadence", map[string]any{"gap": gap.String(), "interval": iv.String(), "ping": l1[i].n}))
+			cadenceGaps++ // observation only: the statement bounds the detection, not the spacing of pings
 		}
 	}
 	if len(l1) > 0 {
 		if first := l1[0].at.Sub(start); first > iv+slack {
-			return finish(vrun.Violation("the first ping was sent later than one interval after connecting", "first-ping-late", map[string]any{"after": first.String()}))
+			cadenceGaps++
 		}
 	}
 	if s.AnswerK >= 0 && isSilent {
@@ -386,6 +387,7 @@ func run(s scenario) vrun.Result {
 	}
 	r := vrun.Hold(fmt.Sprintf("%d|%d|%d|%s|%s|%v|%d|%d", s.IntervalMs, s.TimeoutMs, s.AnswerK, s.OkDelay, s.Late, s.Traffic, s.BrokerPings, s.PingBurst), len(l1) >= 2)
 	r.Stat("client_pings_observed", int64(len(ps)))
+	r.Stat("observation_ping_gaps_longer_than_one_interval", int64(cadenceGaps))
 	r.Stat("broker_pings_answered", int64(answered))
 	if fb != nil {
 		r.Stat("dead_peer_cases", 1)
